@@ -117,6 +117,11 @@ def judge(case):
             viol.append("trivia variant does not compile: %r | variant=%r" % (r1[1:], text))
             continue
         out1 = _outcomes(r1[1], case["inputs"], seeded)
+        for enc, o in zip(case["inputs"], out1):
+            msg = common.check_routing(prog, M.dec_inputs(enc), o)  # independent oracle: the reference interpreter's route
+            if msg:
+                viol.append("trivia variant: %s | variant=%r" % (msg, text))
+                break
         if out1 != out0:
             viol.append("trivia changed evaluation results %r -> %r | variant=%r | base=%s" % (out0, out1, text, base))
             continue
